@@ -387,6 +387,9 @@ pub struct Cfg {
   pub magic: u16,
   /// `Options::with_offset` of a file-backed arena (optional 12th token `offset=N`; 0 otherwise)
   pub offset: u64,
+  /// mapping options that must not change any answer (optional token `mm=K`, bits: 1 = `with_lock_meta`, 2 =
+  /// `with_populate`, 4 = `with_stack`); applied to every open of the case
+  pub mm: u8,
 }
 
 pub const FREELISTS: [&str; 3] = ["none", "opt", "pess"];
@@ -396,13 +399,19 @@ impl Cfg {
   /// Parses a `cfg` line (keys in the order of PROTOCOL.md); `None` = `bad-op`.
   pub fn parse(line: &str) -> Option<Cfg> {
     let t: Vec<&str> = line.split(' ').collect();
-    if (t.len() != 11 && t.len() != 12) || t[0] != "cfg" {
+    if t.len() < 11 || t.len() > 13 || t[0] != "cfg" {
       return None;
     }
-    let offset: u64 = match t.get(11) {
-      None => 0,
-      Some(x) => x.strip_prefix("offset=")?.parse().ok()?,
-    };
+    let (mut offset, mut mm): (u64, u8) = (0, 0);
+    for x in &t[11..] {
+      if let Some(v) = x.strip_prefix("offset=") {
+        offset = v.parse().ok()?;
+      } else if let Some(v) = x.strip_prefix("mm=") {
+        mm = v.parse().ok().filter(|m| *m < 8)?;
+      } else {
+        return None;
+      }
+    }
     let val = |i: usize, key: &str| -> Option<&str> { t[i].strip_prefix(key)?.strip_prefix('=') };
     Some(Cfg {
       sync: match val(1, "flavour")? {
@@ -424,6 +433,7 @@ impl Cfg {
       retries: val(9, "retries")?.parse().ok()?,
       magic: val(10, "magic")?.parse().ok()?,
       offset,
+      mm,
     })
   }
 
@@ -441,6 +451,7 @@ impl Cfg {
       self.retries,
       self.magic
     ) + &(if self.offset != 0 { format!(" offset={}", self.offset) } else { String::new() })
+      + &(if self.mm != 0 { format!(" mm={}", self.mm) } else { String::new() })
   }
 
   /// May panic (`with_maximum_alignment` asserts a power of two): call under `catch_unwind`.
@@ -459,6 +470,9 @@ impl Cfg {
       })
       .with_unify(self.unify)
       .with_offset(if self.backend == 2 { self.offset } else { 0 })
+      .with_lock_meta(self.mm & 1 != 0)
+      .with_populate(self.mm & 2 != 0)
+      .with_stack(self.mm & 4 != 0)
   }
 
   /// `data_offset()` the arena will report for this configuration (the "prefix").
@@ -608,6 +622,9 @@ trait BytesLike {
   fn get_var(&self, ty: &str) -> Option<Option<(usize, String)>>;
   /// the panicking `put_*_varint_unchecked` / `get_*_varint_unchecked`
   fn put_varu(&mut self, ty: &str, v: &str) -> Option<usize>;
+  /// the `std::io`-flavoured wrappers `write_<ty>_<order>` / `write_<ty>_varint`
+  fn write_int(&mut self, ty: &str, ord: &str, v: &str) -> Option<bool>;
+  fn write_var(&mut self, ty: &str, v: &str) -> Option<Option<usize>>;
   fn get_varu(&mut self, ty: &str) -> Option<(usize, String)>;
   fn put_slice_(&mut self, s: &[u8]) -> bool;
   fn set_len_(&mut self, n: usize);
@@ -638,6 +655,22 @@ macro_rules! int_arms {
         (stringify!($t), "le") => Some($b.[<get_ $t _le>]().ok().map(|x| x.to_string())),
         (stringify!($t), "ne") => Some($b.[<get_ $t _ne>]().ok().map(|x| x.to_string())),
       )*
+      _ => None,
+    }
+  }};
+  (write $b:ident $ty:ident $ord:ident $v:ident; $($t:ident)*) => { paste::paste! {
+    match ($ty, $ord) {
+      $(
+        (stringify!($t), "be") => $v.parse::<$t>().ok().map(|x| $b.[<write_ $t _be>](x).is_ok()),
+        (stringify!($t), "le") => $v.parse::<$t>().ok().map(|x| $b.[<write_ $t _le>](x).is_ok()),
+        (stringify!($t), "ne") => $v.parse::<$t>().ok().map(|x| $b.[<write_ $t _ne>](x).is_ok()),
+      )*
+      _ => None,
+    }
+  }};
+  (write_var $b:ident $ty:ident $v:ident; $($t:ident)*) => { paste::paste! {
+    match $ty {
+      $( stringify!($t) => $v.parse::<$t>().ok().map(|x| $b.[<write_ $t _varint>](x).ok()), )*
       _ => None,
     }
   }};
@@ -681,6 +714,12 @@ macro_rules! impl_bytes_like {
       }
       fn get_var(&self, ty: &str) -> Option<Option<(usize, String)>> {
         int_arms!(get_var self ty; u16 u32 u64 u128 i16 i32 i64 i128)
+      }
+      fn write_int(&mut self, ty: &str, ord: &str, v: &str) -> Option<bool> {
+        int_arms!(write self ty ord v; u16 u32 u64 u128 usize i16 i32 i64 i128 isize)
+      }
+      fn write_var(&mut self, ty: &str, v: &str) -> Option<Option<usize>> {
+        int_arms!(write_var self ty v; u16 u32 u64 u128 i16 i32 i64 i128)
       }
       fn put_varu(&mut self, ty: &str, v: &str) -> Option<usize> {
         int_arms!(put_varu self ty v; u16 u32 u64 u128 i16 i32 i64 i128)
@@ -1379,8 +1418,8 @@ impl<A: Flavour> Case<A> {
         "r=ok".to_string()
       }
       // ---- buffer operations -----------------------------------------------------------
-      "put" | "get" | "put_var" | "get_var" | "put_varu" | "get_varu" | "put_slice" | "set_len" | "align_to"
-      | "put_aligned" | "putT" => {
+      "put" | "get" | "put_var" | "get_var" | "put_varu" | "get_varu" | "wput" | "wput_var" | "put_slice" | "set_len"
+      | "align_to" | "put_aligned" | "putT" => {
         if t.len() < 2 {
           return None;
         }
@@ -1419,6 +1458,8 @@ impl<A: Flavour> Case<A> {
     let ord_ok = |o: &str| matches!(o, "be" | "le" | "ne");
     let ok = match t[0] {
       "put" => t.len() == 5 && INTS.contains(&t[2]) && ord_ok(t[3]),
+      "wput" => t.len() == 5 && INTS.contains(&t[2]) && !matches!(t[2], "u8" | "i8") && ord_ok(t[3]),
+      "wput_var" => t.len() == 4 && VARS.contains(&t[2]),
       "get" => t.len() == 4 && INTS.contains(&t[2]) && ord_ok(t[3]),
       "put_var" | "put_varu" => t.len() == 4 && VARS.contains(&t[2]),
       "get_var" | "get_varu" => t.len() == 3 && VARS.contains(&t[2]),
@@ -1463,6 +1504,14 @@ impl<A: Flavour> Case<A> {
       "get" => match b.get_int(t[2], t[3])? {
         Some(v) => format!("r=ok val={v}"),
         None => "r=IncompleteBuffer".to_string(),
+      },
+      "wput" => match b.write_int(t[2], t[3], t[4])? {
+        true => "r=ok".to_string(),
+        false => "r=InsufficientBuffer".to_string(),
+      },
+      "wput_var" => match b.write_var(t[2], t[3])? {
+        Some(n) => format!("r=ok n={n}"),
+        None => "r=InsufficientBuffer".to_string(),
       },
       "put_var" => match b.put_var(t[2], t[3])? {
         Some(n) => format!("r=ok n={n}"),
@@ -1528,7 +1577,7 @@ impl<A: Flavour> Case<A> {
         // a panicking buffer operation still reports the length of its handle
         let len = matches!(
           t[0],
-          "put" | "get" | "put_var" | "get_var" | "put_varu" | "get_varu" | "put_slice" | "set_len" | "align_to" | "put_aligned" | "putT"
+          "put" | "get" | "put_var" | "get_var" | "put_varu" | "get_varu" | "wput" | "wput_var" | "put_slice" | "set_len" | "align_to" | "put_aligned" | "putT"
         )
         .then(|| t.get(1).and_then(|h| parse::<u32>(h)).and_then(|h| self.handles.get(&h)).and_then(|s| s.len()))
         .flatten();
@@ -1834,6 +1883,9 @@ impl<A: Flavour> Case<A> {
         .with_maximum_alignment(cfg.maxalign)
         .with_maximum_retries(cfg.retries)
         .with_offset(cfg.offset)
+        .with_lock_meta(cfg.mm & 1 != 0)
+        .with_populate(cfg.mm & 2 != 0)
+        .with_stack(cfg.mm & 4 != 0)
         .with_read(true)
         .with_write(true);
       if r.create & 1 != 0 {
@@ -1884,11 +1936,11 @@ fn mappings_of(path: &Path) -> usize {
 }
 
 /// First tokens of the lines that need an arena (answered `r=closed` while the case is closed).
-const ARENA_OPS: [&str; 43] = [
+const ARENA_OPS: [&str; 45] = [
   "alloc_bytes", "alloc_bytes_owned", "alloc_aligned", "alloc_aligned_owned", "alloc_t", "alloc_t_owned",
   "alloc_d", "alloc_d_owned", "alloc_z", "alloc_z_owned", "fill", "drop", "detach", "dealloc", "discard_freelist", "set_minseg",
   "inc_discarded", "rewind", "clear", "truncate", "clone", "drop_arena", "rd", "rd_var", "slices",
-  "checksum", "info", "wres", "rres", "put", "get", "put_var", "get_var", "put_varu", "get_varu", "put_slice", "set_len", "align_to",
+  "checksum", "info", "wres", "rres", "put", "get", "put_var", "get_var", "put_varu", "get_varu", "wput", "wput_var", "put_slice", "set_len", "align_to",
   "put_aligned", "putT", "flush", "remove_on_drop", "close",
 ];
 
